@@ -135,7 +135,10 @@ func verifC13RoundTrip() {
 	}
 	sec := vInt(0, 2)
 	for i, n := 0, vInt(0, 1+vTier()); i < n; i++ {
-		rr := vRR()
+		rr := RR{Name: vName(1), Type: 1, Class: 1, TTL: vUint32(), Data: net.IP(vBytes(4))} // (thorough tier: a plain second record)
+		if i == 0 {
+			rr = vRR()
+		}
 		switch sec {
 		case 0:
 			m.Answer = append(m.Answer, rr)
@@ -233,7 +236,11 @@ func verifC13Padding() {
 		name[len(name)-1] = 'a'
 		vAssume(n%64 != 0) // keep labels <= 63 bytes
 	}
-	m := &Message{RD: 1, Question: []Question{{Name: string(name), Type: 65, Class: 1}}}
+	qn := string(name)
+	if len(name) > 0 && vBool() {
+		qn += "." // the fully-qualified spelling of the same name
+	}
+	m := &Message{RD: 1, Question: []Question{{Name: qn, Type: 65, Class: 1}}}
 	var keep []Option // the caller's own options: they must survive
 	shape := vInt(0, 4)
 	switch shape {
